@@ -401,6 +401,37 @@ func runC13_5(c *core.Ctx) {
 				return true
 			})
 			if fresh == nil {
+				// n := new(node); n.value = task
+				ast.Inspect(f.Decl.Body, func(n ast.Node) bool {
+					if as, ok := n.(*ast.AssignStmt); ok && len(as.Lhs) == 1 && len(as.Rhs) == 1 {
+						if call, ok := ast.Unparen(as.Rhs[0]).(*ast.CallExpr); ok && len(call.Args) == 1 {
+							if id, ok := call.Fun.(*ast.Ident); ok && id.Name == "new" {
+								if pt, ok := f.Info.TypeOf(call).(*types.Pointer); ok {
+									if tn, ok := pt.Elem().(*types.Named); ok && tn.Obj().Name() == "node" {
+										fresh = flow.ObjOf(f.Info, as.Lhs[0])
+									}
+								}
+							}
+						}
+					}
+					return true
+				})
+				if fresh != nil {
+					carries := false
+					ast.Inspect(f.Decl.Body, func(n ast.Node) bool {
+						if as, ok := n.(*ast.AssignStmt); ok && len(as.Lhs) == len(as.Rhs) {
+							for i, l := range as.Lhs {
+								if sel, ok := ast.Unparen(l).(*ast.SelectorExpr); ok && flow.FieldOf(f.Info, sel) == value && flow.ObjOf(f.Info, sel.X) == fresh && flow.ObjOf(f.Info, as.Rhs[i]) == types.Object(f.param(0)) {
+									carries = true
+								}
+							}
+						}
+						return true
+					})
+					c.Check(carries, f.Name, "fresh node carries the task", f.Decl.Pos(), "value: the parameter", "the node Enqueue links does not carry the task it was given: a dequeuer receives nil (or another task) for it")
+				}
+			}
+			if fresh == nil {
 				c.Violate(f.Name, "fresh node carries the task", f.Decl.Pos(), "Enqueue allocates no node")
 			}
 		}
